@@ -1,6 +1,7 @@
 package main
 
 import (
+	"encoding/json"
 	"sort"
 
 	"github.com/modernizing/coca/pkg/application/rcall"
@@ -11,6 +12,7 @@ func init() {
 	register("C04", func(in Sx) Sx {
 		m := modelOf(in.Nth(0))
 		outs := []Sx{}
+		var sess *cliSess
 		for _, t := range in.Nth(1).StrList() {
 			var got map[string][]string
 			dot := rcall.NewRCallGraph().Analysis(t, m, func(rm map[string][]string) { got = rm })
@@ -22,6 +24,39 @@ func init() {
 			entries := []Sx{}
 			for _, k := range keys {
 				entries = append(entries, L(A(k), Strs(got[k])))
+			}
+			// every third history also goes through `coca rcall -c TARGET -d deps.json`, all its targets in ONE report
+			// directory, one after the other as a user would: rcall.dot and rcallmap.json as they stand after each run
+			// are the observation (a report left over from the previous target is seen)
+			if cliEnabled() && t != "" && (len(in.Nth(1).Items())+len(in.Nth(0).Items()))%3 == 0 {
+				if sess == nil {
+					sess = newCliSess()
+					defer sess.close()
+					sess.writeJSON("deps.json", m)
+				}
+				if out, ok := sess.run("rcall", "-c", t, "-d", "coca_reporter/deps.json"); !ok {
+					dot = "!CLI-ERROR " + panicClass(out)
+				} else {
+					if text, ok := sess.read("rcall.dot"); ok {
+						dot = text
+					} else {
+						dot = "!CLI-NO-OUTPUT rcall.dot"
+					}
+					var cm map[string][]string
+					if text, ok := sess.read("rcallmap.json"); !ok || json.Unmarshal([]byte(text), &cm) != nil {
+						entries = []Sx{L(A("!CLI-NO-OUTPUT rcallmap.json"), Strs(nil))}
+					} else {
+						ks := make([]string, 0, len(cm))
+						for k := range cm {
+							ks = append(ks, k)
+						}
+						sort.Strings(ks)
+						entries = []Sx{}
+						for _, k := range ks {
+							entries = append(entries, L(A(k), Strs(cm[k])))
+						}
+					}
+				}
 			}
 			outs = append(outs, L(L(entries...), A(dot)))
 		}
